@@ -578,8 +578,8 @@ impl Check for C14 {
     }
     fn lanes(&self, tier: Tier) -> Vec<(&'static str, usize, usize)> {
         match tier {
-            Tier::Quick => vec![("history", 6000, 500)],
-            Tier::Thorough => vec![("history", 300_000, 600)],
+            Tier::Quick => vec![("history", 30_000, 500)],
+            Tier::Thorough => vec![("history", 600_000, 600)],
         }
     }
     fn run_case(&self, _lane: &str, src: &mut Src, rep: &mut Report) -> Result<(), Failure> {
